@@ -75,6 +75,73 @@ def parseCOp (j : Json) : Except String COp := do
 
 def fbToJson (t : Act × Rat × Rat) : Json := Json.arr #[ofNat t.1, ratToJson t.2.1, ratToJson t.2.2]
 
+/-- a plain learner inside a tower with the table of UCB indexes of each of its predict calls -/
+def parseLeaf (j : Json) : Except String Leaf := do
+  let L ← parseLearner (← field j "leaf")
+  let tables ← (← arr (fieldD j "vals" (Json.arr #[]))).mapM (fun t => do
+    (← arr t).mapM (fun p => do
+      match (← arr p) with
+      | [a, v] => pure (← nat a, ← ratOfJson v)
+      | _ => throw "val pair expected"))
+  let val : Nat → Act → Rat := fun k a =>
+    match (tables.getD k []).find? (fun p => p.1 == a) with
+    | some p => p.2
+    | none => 0
+  pure { L := L, val := val }
+
+def parseCorralInit (j : Json) : Except String Corral := do
+  pure (Corral.init flDouble (← nat (← field j "M")) (← ratOfJson (← field j "eta")) (← ratOfJson (← field j "gamma"))
+    (← ratOfJson (← field j "beta")) (← bool (← field j "imp")) (← parseSeed (← field j "seed")))
+
+def parseNode1 (j : Json) : Except String (CNode Leaf) := do
+  pure { mis := ← (← arr (fieldD j "mis" (Json.arr #[]))).mapM ratPair, c := ← parseCorralInit (← field j "corral"),
+         bases := ← (← arr (← field j "bases")).mapM parseLeaf }
+
+def parseBase1 (j : Json) : Except String (tower flDouble 1).σ := do
+  match j.getObjVal? "corral" with
+  | .ok _ => pure (Sum.inr (← parseNode1 j))
+  | .error _ => pure (Sum.inl (← parseLeaf j))
+
+def leafDump (l : Leaf) : Json :=
+  match l.L.kind with
+  | .eps st => obj [("Q", ofList (fun (p : Act × Rat) => Json.arr #[ofNat p.1, ratToJson p.2]) st.Q)]
+  | .ucb st => obj [("t", ofNat st.t)]
+  | _ => Json.null
+
+def node1Dump (n : CNode Leaf) : Json :=
+  obj [("ps", ofList ratToJson n.c.ps), ("pbars", ofList ratToJson n.c.pbars), ("lastActs", ofList ofNat n.lastActs),
+       ("lastProbs", ofList ratToJson n.lastProbs), ("leaves", ofList leafDump n.bases)]
+
+def base1Dump (b : (tower flDouble 1).σ) : Json :=
+  match b with
+  | Sum.inl l => obj [("leaf", leafDump l)]
+  | Sum.inr n => node1Dump n
+
+def topDump (n : CNode (tower flDouble 1).σ) : Json :=
+  obj [("ps", ofList ratToJson n.c.ps), ("pbars", ofList ratToJson n.c.pbars), ("lastActs", ofList ofNat n.lastActs),
+       ("lastProbs", ofList ratToJson n.lastProbs), ("bases", ofList base1Dump n.bases)]
+
+/-- a whole history on `tower flDouble 2` -/
+def towerRun : (tower flDouble 2).σ → List Json → Except String (List Json)
+  | _, [] => pure []
+  | s, opj :: rest => do
+    let name ← str (← field opj "op")
+    let dump (s : (tower flDouble 2).σ) : Json := match s with | Sum.inr n => topDump n | Sum.inl _ => Json.null
+    match name with
+    | "predict" =>
+      match (tower flDouble 2).predict s (← natList (← field opj "actions")) with
+      | .error e => pure [obj [("err", Json.str (errName e))]]
+      | .ok (s', a, p) => do
+        let more ← towerRun s' rest
+        pure (obj [("a", ofNat a), ("p", ratToJson p), ("dump", dump s')] :: more)
+    | "learn" =>
+      match (tower flDouble 2).learn s (← nat (← field opj "a")) (← ratOfJson (← field opj "r")) (← ratOfJson (← field opj "p")) with
+      | .error e => pure [obj [("err", Json.str (errName e))]]
+      | .ok s' => do
+        let more ← towerRun s' rest
+        pure (obj [("dump", dump s')] :: more)
+    | _ => throw s!"unknown op {name}"
+
 def handle (req : Json) : Except String Json := do
   let kind ← str (← field req "kind")
   match kind with
@@ -87,7 +154,8 @@ def handle (req : Json) : Except String Json := do
       match (tables.getD k []).find? (fun p => p.1 == a) with
       | some p => p.2
       | none => 0
-    pure (obj [("outs", ofList outToJson (runL flDouble val 0 L ops))])
+    pure (obj [("outs", ofList outToJson (runL flDouble val 0 L ops)),
+               ("pmfF", ofList (ofList ratToJson) (runLF flDouble val 0 L ops))])
   | "corral_init" =>
     let c := Corral.init flDouble (← nat (← field req "M")) (← ratOfJson (← field req "eta")) (← ratOfJson (← field req "gamma"))
       (← ratOfJson (← field req "beta")) (← bool (← field req "imp")) (← parseSeed (← field req "seed"))
@@ -141,6 +209,12 @@ def handle (req : Json) : Except String Json := do
     let vs ← ratList (← field req "xs")
     let w := Welford.run flDouble vs
     pure (obj [("var", ofOpt ratToJson w.var), ("mean", ratToJson w.mean)])
+  | "tower_run" =>
+    let nodej ← field req "node"
+    let top : CNode (tower flDouble 1).σ :=
+      { mis := ← (← arr (fieldD nodej "mis" (Json.arr #[]))).mapM ratPair, c := ← parseCorralInit (← field nodej "corral"),
+        bases := ← (← arr (← field nodej "bases")).mapM parseBase1 }
+    pure (obj [("outs", Json.arr (← towerRun (Sum.inr top) (← arr (← field req "hist"))).toArray)])
   | "fl" =>
     pure (obj [("fl", ofList ratToJson ((← ratList (← field req "xs")).map flDouble))])
   | _ => throw s!"unknown kind {kind}"
